@@ -116,6 +116,10 @@ def run(ctx):
             hcases.append({"id": "%s/ws/drop" % i, "query": q, "plan": p, "transport": "ws", "timeoutMs": 4000,
                            "clientEnds": "drop", "afterNext": 1})
             hcases.append({"id": "%s/ws/cancel" % i, "query": q, "plan": p, "transport": "ws", "timeoutMs": 4000, "cancelAt": 4})
+            # a server whose InitFunc builds the connection's context itself (not derived from the request's)
+            hcases.append({"id": "%s/ws/detached-init/drop" % i, "query": q, "plan": p, "transport": "ws", "timeoutMs": 4000,
+                           "clientEnds": "drop", "afterNext": 1, "detachedInit": True})
+            hcases.append({"id": "%s/ws/detached-init" % i, "query": q, "plan": p, "transport": "ws", "timeoutMs": 4000, "detachedInit": True})
         rc, so, se = vf.sh([b, "-mode", "http", "-maxhung", "3"], inp="\n".join(json.dumps(c) for c in hcases) + "\n", timeout=1200)
         if rc != 0:
             raise RuntimeError("http runner failed: " + se[-2000:])
